@@ -39,7 +39,12 @@ RULE = ("programs of 1..4 modes and 1..6 commands over every operation class of 
         "file path) or generate_code; at most one 'hazard' feature (a construct that is known or likely not to be "
         "loadable) per program so that the rest of the comparison stays live; non-trivial = at least 2 commands and at "
         "least one of dagger / symbolic parameter / array parameter / select / dark_counts / constructor option / "
-        "run option; distinct = distinct JSON")
+        "run option; distinct = distinct JSON.  Audit additions: sf.save / sf.load through a name that already has the extension, a "
+        "pathlib.Path, an open file object, to_xir(add_decl=True) as string; integer-dtype matrices and np.float64 scalars as "
+        "parameters; identifier program names; generate_code with a local engine (backend, cutoff_dim) and with a register larger "
+        "than the highest mode used; TDM programs with .H gates, MeasureFock / MeasureThreshold / MeasureHeterodyne / MeasureX / "
+        "MeasureP, 12 per-bin arrays (p10, p11), arrays given as numpy arrays / tuples, add_decl; every successful write is "
+        "followed by a comparison of the source program with its snapshot from before the write and by a second write")
 ASSUMPTIONS = [
     "numeric parameters equal within 1e-12 relative (arrays: relative to the largest entry); python type (int/float/"
     "numpy scalar, list/tuple/array) and the program name are not compared",
@@ -55,10 +60,18 @@ ASSUMPTIONS = [
     "the source program is evaluated completely before anything is loaded and sympy's caches are cleared at the start of "
     "every case (symbols are shared by name across Programs, F7)",
     "an empty program (no commands after compilation) is not written: both readers document ValueError for it",
+    "writing is a read-only operation: after to_blackbird / to_xir / generate_code / sf.save the source program has the same snapshot as "
+    "before and a second write gives the same text (every caller saves a program and then runs it); excluded for blackbird TDM "
+    "programs whose measurement angle is a loop variable (AUDIT-FINDING blackbird-tdm-writer-mutates-source)",
+    "generate_code(prog, eng): the code is executed without its last line 'results = eng.run(prog)' (nothing is simulated); the "
+    "engine it constructs must have the backend name and backend_options of eng (only cutoff_dim is generated: the documented "
+    "output format has no place for other options); the register size is compared for generate_code even if the top modes are "
+    "unused (it prints sf.Program(n))",
     "run options are only generated together with a compile target (Blackbird has no place for them otherwise); "
     "generate_code is only given uncompiled programs and eng=None",
 ]
-REQUIRED_LABELS = {"all": ["w:blackbird", "w:xir", "w:code", "tdm", "dagger", "sym:free", "sym:meas", "array_param", "select", "mode_index_ge_10", "measured_parameter_of_mode_ge_10",
+REQUIRED_LABELS = {"all": ["path:file_ext", "path:pathlib", "path:fileobj", "code_with_engine", "code_unused_top_modes", "tdm_dagger",
+                           "tdm_measurement_not_homodyne_phi", "numpy_scalar_param", "w:blackbird", "w:xir", "w:code", "tdm", "dagger", "sym:free", "sym:meas", "array_param", "select", "mode_index_ge_10", "measured_parameter_of_mode_ge_10",
                            "dark_counts", "ctor_option", "compiled", "path:file", "path:string", "complex_param",
                            "near_pi12", "outcome:compared", "outcome:writer_rejected_or_crashed", "outcome:unloadable"]}
 
@@ -91,6 +104,12 @@ def dec(x):
             return [dec(y) for y in x["list"]]
         if "arr3" in x:
             return np.array(x["arr3"], dtype=float)
+        if "imat" in x:  # integer dtype (adjacency / permutation matrices as networkx or np.eye(n, dtype=int) give them)
+            return np.array(x["imat"], dtype=np.int64)
+        if "npf" in x:  # numpy scalar as np.sqrt(2), arr[i] give them
+            return np.float64(x["npf"])
+        if "npi" in x:
+            return np.int64(x["npi"])
         return spec.dec_param(x)
     return x
 
@@ -223,18 +242,20 @@ def _apply_ops(prog, q, oplist, tdm_sym=None):
 def build_program(case):
     import strawberryfields as sf
 
+    name = {"name": case["name"]} if case.get("name") is not None else {}
     try:
         if case.get("tdm"):
             t = case["tdm"]
             N = t["N"] if len(t["N"]) > 1 or t.get("N_as_list") else t["N"][0]
-            prog = sf.TDMProgram(N=N)
+            prog = sf.TDMProgram(N=N, **name)
             kw = {} if t.get("shift", "default") == "default" else {"shift": t["shift"]}
-            with prog.context(*[list(a) for a in t["arrays"]], **kw) as (p, q):
+            conv = {"list": list, "tuple": tuple, "numpy": np.array}[t.get("arrays_as", "list")]  # np.array: float64 / int64 by content
+            with prog.context(*[conv(list(a)) for a in t["arrays"]], **kw) as (p, q):
                 _apply_ops(prog, q, case["ops"], tdm_sym=lambda i: p[i])
             if case.get("tdm_shots"):
                 prog.run_options["shots"] = int(case["tdm_shots"])
         else:
-            prog = sf.Program(case["n"])
+            prog = sf.Program(case["n"], **name)
             with prog.context as q:
                 _apply_ops(prog, q, case["ops"])
     except Exception as exc:  # pylint: disable=broad-except
@@ -438,6 +459,8 @@ def compare_cmd(w, k, a, b, info):
     if a["modes"] != b["modes"]:
         out.append(("io.modes_changed.%s.%s" % (w, cls), "%s was loaded on modes %s" % (head, b["modes"])))
     ca, cb = canon(a), canon(b)
+    if a["dagger"] == b["dagger"] and ca["dagger"] != cb["dagger"]:
+        ca, cb = a, b  # same flag, but one first parameter cannot be folded (it was loaded as a str): compare as written
     dag_reported = False
     if ca["dagger"] != cb["dagger"]:
         out.append(("io.dagger_dropped.%s" % w if a["dagger"] and not b["dagger"] else "io.dagger_changed.%s" % w,
@@ -524,7 +547,7 @@ def compare_programs(w, A, B, info):
     out = []
     if A["type"] != B["type"]:
         out.append(("io.program_type_changed.%s" % w, "%s was loaded as %s" % (A["type"], B["type"])))
-    if A["top"] + 1 == A["n"] and B["n"] != A["n"] and not info.get("tdm"):
+    if (A["top"] + 1 == A["n"] or w == "code") and B["n"] != A["n"] and not info.get("tdm"):
         out.append(("io.num_modes_changed.%s" % w, "register size %d -> %d" % (A["n"], B["n"])))
     if A["target"] != B["target"]:
         out.append(("io.target_lost.%s" % w if B["target"] is None else "io.target_changed.%s" % w,
@@ -581,33 +604,73 @@ def _deliberate():
     return (ValueError, NotImplementedError, CircuitError)
 
 
-def write_text(prog, w, path, tmpdir):
-    """returns (text, filename or None)"""
+PATHS_FILE = ("file", "file_decl", "file_ext", "pathlib", "fileobj")
+
+
+def make_engine(e):
+    """the local engine described by case["eng"] = {"backend": name, "cutoff_dim": int | None}"""
+    import strawberryfields as sf
+
+    if e.get("cutoff_dim") is not None:
+        return sf.Engine(e["backend"], backend_options={"cutoff_dim": int(e["cutoff_dim"])})
+    return sf.Engine(e["backend"])
+
+
+def write_text(prog, w, path, tmpdir, eng=None):
+    """returns (text, handle for the reader or None).  ``path``: string | string_decl (to_xir(add_decl=True)) | file (name
+    without extension) | file_decl | file_ext (name that already has the extension) | pathlib (pathlib.Path without
+    extension) | fileobj (an open text file object / io.StringIO is handed to sf.save and to sf.load)"""
+    import pathlib
+
     import strawberryfields as sf
 
     if w == "code":
-        return sf.io.generate_code(prog), None
-    if path == "string":
+        return (sf.io.generate_code(prog) if eng is None else sf.io.generate_code(prog, eng=make_engine(eng))), None
+    if path in ("string", "string_decl"):
         if w == "blackbird":
             return sf.io.to_blackbird(prog).serialize(), None
-        return sf.io.to_xir(prog).serialize(), None
+        return (sf.io.to_xir(prog, add_decl=True) if path == "string_decl" else sf.io.to_xir(prog)).serialize(), None
+    ext = ".xbb" if w == "blackbird" else ".xir"
     fn = os.path.join(tmpdir, "prog")  # extension is appended by sf.save
+    if path == "fileobj":
+        fn += ".txt"
+        with open(fn, "w") as f:
+            sf.save(f, prog, ir=w)
+        with open(fn) as f:
+            return f.read(), ("fileobj", fn)
     if path == "file_decl" and w == "xir":
         sf.save(fn, prog, ir="xir", add_decl=True)
+    elif path == "file_ext":
+        sf.save(fn + ext, prog, ir=w)  # documented: the extension is appended "if it does not already have one"
+    elif path == "pathlib":
+        sf.save(pathlib.Path(fn), prog, ir=w)
     else:
         sf.save(fn, prog, ir=w)
-    fn += ".xbb" if w == "blackbird" else ".xir"
+    fn += ext
     with open(fn) as f:
-        return f.read(), fn
+        return f.read(), (("pathlib", fn) if path == "pathlib" else fn)
 
 
 def read_back(text, fn, w, with_np=False):
+    import pathlib
+
     import strawberryfields as sf
 
     if w == "code":
         ns = {"np": np} if with_np else {}
-        exec(compile(text, "<generate_code>", "exec"), ns)  # pylint: disable=exec-used
-        return ns["prog"]
+        lines = text.rstrip().splitlines()
+        ran = bool(lines) and lines[-1].startswith("results = eng.run(")
+        if ran:
+            lines = lines[:-1]  # with eng=...: the program and the engine are constructed, the simulation is not run
+        exec(compile("\n".join(lines), "<generate_code>", "exec"), ns)  # pylint: disable=exec-used
+        loaded = ns["prog"]
+        loaded._vf_engine = (ns.get("eng"), ran)  # pylint: disable=protected-access
+        return loaded
+    if isinstance(fn, tuple) and fn[0] == "fileobj":
+        with open(fn[1]) as f:
+            return sf.load(f, ir=w)
+    if isinstance(fn, tuple):
+        return sf.load(pathlib.Path(fn[1]), ir=w)
     if fn is not None:
         return sf.load(fn, ir=w)
     return sf.io.loads(text, ir=w)
@@ -628,7 +691,7 @@ def unloadable_cause(w, exc, tags):
     tn = type(exc).__name__
     if isinstance(exc, TypeError) and "Fouriergate.__init__()" in msg and "cls:Fouriergate" in tags:
         return "Fouriergate_args"
-    for cls, lab in (("sMZgate", "sMZgate_not_exported"), ("_New_modes", "New_modes"), ("_Delete", "Delete")):
+    for cls, lab in (("sMZgate", "sMZgate_not_exported"), ("Ggate", "Ggate_not_exported"), ("_New_modes", "New_modes"), ("_Delete", "Delete")):
         if "cls:" + cls in tags:
             if isinstance(exc, NameError) and cls in msg:
                 return lab
@@ -669,6 +732,33 @@ def unloadable_cause(w, exc, tags):
         if "array_param" in tags and isinstance(exc, (AttributeError, TypeError, ValueError, IndexError)):
             return "array_param"  # a one-row array prints as a valid nested list, which the constructors do not accept
     return "%s" % tn
+
+
+def _first_diff(a, b):
+    la, lb = a.splitlines(), b.splitlines()
+    for x, y in zip(la, lb):
+        if x != y:
+            return x[:150], y[:150]
+    return "%d lines" % len(la), "%d lines" % len(lb)
+
+
+def compare_engine(want, got):
+    """generate_code(prog, eng): the code constructs the same local engine (backend name, cutoff_dim) and runs the program"""
+    eng, ran = got
+    if want is None:
+        return [("io.engine_invented.code", "generate_code(prog) without an engine wrote an engine / a run line")] if eng is not None or ran else []
+    if eng is None:
+        return [("io.engine_lost.code", "generate_code(prog, eng=Engine(%r)) does not construct an engine" % want["backend"])]
+    out = []
+    if getattr(eng, "backend_name", None) != want["backend"]:
+        out.append(("io.engine_backend_changed.code", "engine backend %r -> %r" % (want["backend"], getattr(eng, "backend_name", None))))
+    opts = dict(getattr(eng, "backend_options", {}) or {})
+    exp = {} if want.get("cutoff_dim") is None else {"cutoff_dim": int(want["cutoff_dim"])}
+    if opts != exp:
+        out.append(("io.engine_option_changed.code", "engine backend_options %r -> %r" % (exp, opts)))
+    if not ran:
+        out.append(("io.engine_run_missing.code", "the code written for an engine does not end with results = eng.run(prog) (documented output)"))
+    return out
 
 
 def _reset_symbols(prog):
@@ -719,6 +809,28 @@ def case_labels(case, tags):
         labs.append("compiled")
     if case.get("tdm"):
         labs.append("tdm")
+        if "dagger" in tags:
+            labs.append("tdm_dagger")
+        if any(t in tags for t in ("cls:MeasureFock", "cls:MeasureThreshold", "cls:MeasureHeterodyne")) or \
+                any((o[3] if len(o) > 3 else {}).get("shorthand") for o in case["ops"]):
+            labs.append("tdm_measurement_not_homodyne_phi")
+        if any(at[0] == "tdm" and at[1] >= 10 for o in case["ops"] for p_ in o[1] for at in ast_atoms(p_)):
+            labs.append("tdm_loop_variable_ge_10")
+        if case.get("path") in ("string_decl", "file_decl"):
+            labs.append("tdm_add_decl")
+    if case.get("name") is not None:
+        labs.append("program_name")
+    if (case.get("tdm") or {}).get("arrays_as", "list") != "list":
+        labs.append("tdm_arrays_as:" + case["tdm"]["arrays_as"])
+    if case.get("eng"):
+        labs.append("code_with_engine")
+        labs.append("code_with_engine:cutoff_dim" if case["eng"].get("cutoff_dim") is not None else "code_with_engine:no_options")
+    if case["ir"] == "code" and not case.get("tdm") and case.get("n", 0) > 1 + max([m for o in case["ops"] for m in o[2]] + [0]):
+        labs.append("code_unused_top_modes")
+    if any(isinstance(p_, dict) and "imat" in p_ for o in case["ops"] for p_ in o[1]):
+        labs.append("int_array_param")
+    if any(isinstance(p_, dict) and "npf" in p_ for o in case["ops"] for p_ in o[1]):
+        labs.append("numpy_scalar_param")
     if case.get("near_pi12"):
         labs.append("near_pi12")
     if case.get("hbar", 2.0) != 2.0:
@@ -793,7 +905,7 @@ def _check_rt(ctx, case):
     with tempfile.TemporaryDirectory(prefix="vfc14-") as tmp:
         # ---- (1) write
         try:
-            text, fn = write_text(prog, w, case.get("path", "string"), tmp)
+            text, fn = write_text(prog, w, case.get("path", "string"), tmp, case.get("eng"))
         except _deliberate() as exc:
             ctx.label("outcome:writer_rejected_or_crashed", "writer_rejected:%s:%s" % (w, type(exc).__name__))
             return None
@@ -803,6 +915,28 @@ def _check_rt(ctx, case):
                             "writer died with %s: %s" % (type(exc).__name__, str(exc)[:200]))
         finally:
             _reset_symbols(prog)
+        # ---- (1b) writing is a read-only operation: the source program is what it was, a second write gives the same text
+        # AUDIT-FINDING blackbird-tdm-writer-mutates-source: to_blackbird aliases op["args"] = cmd.op.p for measurements and then
+        # replaces the loop variable by its name IN that list: the source MeasureHomodyne({p0}) becomes MeasureHomodyne('p0')
+        aliasing = not case.get("audit_include_excluded") and w == "blackbird" and is_tdm and any(o[0].startswith("Measure") and any(is_ast(p_) and p_[0] == "tdm" for p_ in o[1])
+                                                       for o in case["ops"])
+        if not aliasing:
+            after = snapshot(prog, binds, meas)
+            moved = compare_programs(w, src, after, dict(info, prebound=False))
+            if moved or after["n"] != src["n"] or after["type"] != src["type"]:
+                ctx.fail("io.source_modified_by_writer.%s" % w, "the source program is different after it was written: %s" % (
+                    "; ".join(d for _, d in moved[:3]) or "register %d -> %d" % (src["n"], after["n"])))
+            if case.get("prebind"):
+                prog.bind_params({k: v for k, v in binds[0].items() if k in prog.free_params})
+            try:
+                text2 = write_text(prog, w, case.get("path", "string"), tmp, case.get("eng"))[0]
+            except Exception as exc:  # pylint: disable=broad-except
+                text2 = "<%s: %s>" % (type(exc).__name__, str(exc)[:120])
+            finally:
+                _reset_symbols(prog)
+            if text2 != text:
+                ctx.fail("io.second_write_differs.%s" % w, "writing the same program twice gave different texts: %r  /  %r" % (
+                    _first_diff(text, text2)))
         # ---- (2) read
         loaded = None
         with_np = False
@@ -831,6 +965,8 @@ def _check_rt(ctx, case):
     ctx.label("outcome:compared")
     got = snapshot(loaded, binds, meas)
     diffs = compare_programs(w, src, got, info)
+    if w == "code":
+        diffs += compare_engine(case.get("eng"), getattr(loaded, "_vf_engine", (None, False)))
     seen = set()
     for sig, detail in diffs:
         if sig not in seen:
@@ -992,8 +1128,20 @@ G1 = ["Dgate", "Xgate", "Zgate", "Sgate", "Pgate", "Vgate", "Kgate", "Rgate"]
 G2 = ["BSgate", "MZgate", "S2gate", "CXgate", "CZgate", "CKgate"]
 CH_PREP = ["LossChannel", "ThermalLossChannel", "Coherent", "Squeezed", "DisplacedSqueezed", "Thermal", "Fock", "Vacuum"]
 MESHES = ["rectangular", "rectangular_phase_end", "rectangular_symmetric", "triangular", "rectangular_compact", "triangular_compact", "sun_compact"]
+# AUDIT-FINDING ggate-not-exported: "Ggate" (implemented in hazard_ops) is not offered: ops.Ggate is not in ops.__all__, to_xir writes
+#   it and from_xir answers NameError (same root as N13 sMZgate); to_blackbird dies on its 1-d parameter (N14)
+# AUDIT-FINDING symbolic-measurement-angle: "meas_angle" (implemented in hazard_ops) is not offered: MeasureHomodyne(q[0].par) | q[1] is
+#   written by to_blackbird as MeasureHomodyne({q0}) (the measurement branch does not build a RegRefTransform; the text cannot be
+#   parsed: KeyError 'parentCtx') and by to_xir as phi: q0, which from_xir loads as the str 'q0'
+# AUDIT-FINDING name-with-space: program names are only generated as identifiers: sf.Program(2, name="my prog") is written as
+#   'name my prog' / '_name_: my prog;' and neither text can be parsed
+# AUDIT-FINDING numpy-int-repr: {"npi": v} (np.int64) is not generated: MeasureFock(select=np.int64(1)) is written as
+#   select=[np.int64(1)] by both writers under numpy >= 2 (repr of numpy scalars) and cannot be parsed
 HAZARDS = ["Fouriergate", "sMZgate", "MSgate", "Catstate", "Ket1", "Bosonic", "GKP", "BipartiteGraphEmbed", "Gaussian", "New", "Del",
            "free", "free", "free", "meas", "meas", "meas", "meas_fn", "pow", "negpow"]
+
+
+NAMES = ["prog_1", "GBS", "test", "a1_b2", "x"]
 
 
 def _is_near(v):
@@ -1001,12 +1149,16 @@ def _is_near(v):
 
 
 @st.composite
-def scalar_op(draw, n, name, dagger_ok=True):
+def scalar_op(draw, n, name, dagger_ok=True, np_ok=False):
     k = 2 if name in G2 or name == "sMZgate" else 1
     modes = list(draw(st.permutations(list(range(n))))[:k])
     params = [draw(KIND[kd]()) for kd in PARAMS[name]]
     if name in ("Sgate", "Dgate", "S2gate", "BSgate", "Coherent", "Squeezed") and draw(st.integers(0, 5)) == 0:
         params = params[:1]  # default second argument
+    if np_ok and params and draw(st.integers(0, 7)) == 0:
+        j = draw(st.integers(0, len(params) - 1))
+        if isinstance(params[j], float):
+            params[j] = {"npf": params[j]}  # np.float64 instead of a python float
     flags = {}
     if dagger_ok and (name in G1 or name in G2 or name in ("sMZgate", "Fouriergate")) and draw(st.integers(0, 3)) == 0:
         flags["H"] = True
@@ -1056,6 +1208,16 @@ def array_op(draw, n, names=("Interferometer", "Interferometer", "GraphEmbed", "
     k = 1 if name == "DensityMatrix" else 2 if name == "Ket2" else draw(st.integers(1, kmax))
     modes = list(draw(st.permutations(list(range(n))))[:k])
     flags = {}
+    if name in ("Interferometer", "GraphEmbed") and draw(st.integers(0, 3)) == 0:
+        # integer dtype: a permutation matrix / the 0-1 adjacency matrix of a graph (np.eye(k, dtype=int)[perm], nx.to_numpy_array(..).astype(int))
+        if name == "Interferometer":
+            A = np.eye(k, dtype=int)[list(draw(st.permutations(list(range(k)))))]
+        else:
+            bits = draw(st.lists(st.integers(0, 1), min_size=k * k, max_size=k * k))
+            A = np.array(bits, dtype=int).reshape(k, k)
+            A = np.triu(A) + np.triu(A, 1).T
+            A[0, k - 1] = A[k - 1, 0] = 1  # not the empty graph
+        return [name, [{"imat": [[int(x) for x in row] for row in A]}], modes, flags]
     if name in ("Interferometer", "PassiveChannel"):
         kind, U = draw(gen.unitary(k))
         if name == "PassiveChannel":
@@ -1169,6 +1331,14 @@ def hazard_ops(draw, n, hz):
         elif what == 1:
             flags["kw"] = {"decomp": {"bool": False}}
         return [["Gaussian", p, modes, flags]], "any"
+    if hz == "Ggate":  # not offered, see HAZARDS
+        k = draw(st.integers(1, min(n, 2)))
+        modes = list(draw(st.permutations(list(range(n))))[:k])
+        _, _, S = draw(gen.symplectic(k, 0.8, ["generic", "passive", "diag"] if k == 1 else ["passive", "diag", "O1Z"]))
+        return [["Ggate", [M(S), spec.enc_vec(draw(st.lists(gen.fl(-1, 1), min_size=2 * k, max_size=2 * k)))], modes]], "any"
+    if hz == "meas_angle" and n >= 2:  # not offered, see HAZARDS: feed-forward of a measurement result into a later measurement basis
+        a, b = list(draw(st.permutations(list(range(n)))))[:2]
+        return [["MeasureHomodyne", [draw(v_ang())], [a]], ["MeasureHomodyne", [draw(sym_ast([["meas", a]]))], [b]]], "ordered"
     if hz == "New":
         return [["New", [draw(st.integers(1, 2))], []]], "end"
     if hz == "Del" and n >= 2:
@@ -1211,7 +1381,9 @@ def _finish(draw, n, ops_, writers):
     used = [m for o in ops_ for m in o[2]]
     n_eff = 1 + max(used + [0])
     w = draw(st.sampled_from(writers))
-    path = "string" if w == "code" else draw(st.sampled_from(["string", "file"] + (["file_decl"] if w == "xir" else [])))
+    # the index is drawn, not the element (sampled_from favours early elements)
+    paths = ["string"] if w == "code" else ["string", "file", "file_ext", "pathlib", "fileobj"] + (["file_decl", "string_decl"] if w == "xir" else [])
+    path = paths[draw(st.integers(0, len(paths) - 1))]
     vals = st.one_of(st.sampled_from([0.5, 1.25, 0.75]), gen.fl(0.1, 2.0))
     case = {"n": n_eff, "ops": ops_, "ir": w, "path": path,
             "bind": [{"a": draw(vals), "b": draw(vals)} for _ in range(3)],
@@ -1231,11 +1403,11 @@ def rt_case(draw, writers=("blackbird", "xir")):
         if grp == "g2" and n < 2:
             grp = "g1"
         if grp == "g1":
-            ops_.append(draw(scalar_op(n, draw(st.sampled_from(G1)))))
+            ops_.append(draw(scalar_op(n, draw(st.sampled_from(G1)), np_ok=True)))
         elif grp == "g2":
-            ops_.append(draw(scalar_op(n, draw(st.sampled_from(G2)))))
+            ops_.append(draw(scalar_op(n, draw(st.sampled_from(G2)), np_ok=True)))
         elif grp == "chp":
-            ops_.append(draw(scalar_op(n, draw(st.sampled_from(CH_PREP)))))
+            ops_.append(draw(scalar_op(n, draw(st.sampled_from(CH_PREP)), np_ok=True)))
         elif grp == "meas":
             ops_.append(draw(meas_op(n)))
         else:
@@ -1252,6 +1424,8 @@ def rt_case(draw, writers=("blackbird", "xir")):
     case = _finish(draw, n, ops_, list(writers))
     if hz:
         case["hazard"] = hz
+    if draw(st.integers(0, 5)) == 0:
+        case["name"] = draw(st.sampled_from(NAMES))
     if draw(st.integers(0, 7)) == 0 or (hz == "Gaussian" and draw(st.booleans())):
         case["hbar"] = draw(st.sampled_from([1.0, 0.5, 3.0]))
     free_used = any(("free", nm) in ast_atoms(p) for o in ops_ for p in o[1] for nm in ("a", "b"))
@@ -1284,12 +1458,21 @@ def code_case(draw):
         if grp == "meas":
             ops_.append(draw(meas_op(n)))
         else:
-            ops_.append(draw(scalar_op(n, draw(st.sampled_from({"g1": G1, "g2": G2 + ["sMZgate"], "chp": CH_PREP}[grp])))))
+            ops_.append(draw(scalar_op(n, draw(st.sampled_from({"g1": G1, "g2": G2 + ["sMZgate"], "chp": CH_PREP}[grp])), np_ok=True)))
+    hz = None
     if draw(st.integers(0, 5)) == 0:
         hz = draw(st.sampled_from(["Fouriergate", "MSgate", "Catstate", "Ket1", "GKP", "free", "meas", "New", "Del", "array"]))
         hops = [draw(array_op(n))] if hz == "array" else draw(hazard_ops(n, hz))[0]
         ops_ = ops_ + hops
-    return _finish(draw, n, ops_, ["code"])
+    case = _finish(draw, n, ops_, ["code"])
+    what = draw(st.integers(0, 5))
+    if what <= 1:  # generate_code(prog, eng=<local engine>): backend name and cutoff_dim are written
+        case["eng"] = {"backend": draw(st.sampled_from(["fock", "gaussian", "bosonic"])), "cutoff_dim": None}
+        if case["eng"]["backend"] == "fock" or draw(st.integers(0, 2)) == 0:
+            case["eng"]["cutoff_dim"] = draw(st.integers(2, 15))
+    if what in (1, 2) and hz not in ("New", "Del"):  # a register that is larger than the highest mode used (written as sf.Program(n))
+        case["n"] += draw(st.integers(1, 9))
+    return case
 
 
 @st.composite
@@ -1298,34 +1481,48 @@ def tdm_case(draw):
     N = draw(st.sampled_from([[1], [2], [2], [3], [1, 2], [2, 3]]))
     n = sum(N)
     bins = draw(st.integers(1, 5))
-    na = draw(st.integers(1, 3))
+    na = draw(st.sampled_from([1, 2, 12, 3, 1, 2, 12, 3]))  # 12: two-digit loop variables p10, p11 (p[10] in code)
+
+    def arr_index():
+        return draw(st.integers(10, na - 1)) if na > 10 and draw(st.integers(0, 2)) else draw(st.integers(0, na - 1))
+
     el = st.one_of(v_ang(), gen.fl(-3, 3), st.integers(-2, 3))
     arrays = [[draw(el) for _ in range(bins)] for _ in range(na)]
     ops_ = []
     used = set()
     for _ in range(draw(st.integers(1, 5))):
         name = draw(st.sampled_from(["Sgate", "Rgate", "BSgate", "Dgate", "LossChannel", "MZgate"] if n >= 2 else ["Sgate", "Rgate", "Dgate", "LossChannel"]))
-        op = draw(scalar_op(n, name, dagger_ok=False))
+        op = draw(scalar_op(n, name, dagger_ok=True))  # .H: 1 in 4 gates
         if name != "LossChannel" and draw(st.integers(0, 3)) != 0:
-            i = draw(st.integers(0, na - 1))
+            i = arr_index()
             slot = draw(st.integers(0, len(op[1]) - 1))
             op[1][slot] = ["tdm", i] if draw(st.integers(0, 5)) != 0 else draw(sym_ast([["tdm", i]], draw(st.sampled_from(["scale", "neg", "affine"]))))
             used.add(i)
         ops_.append(op)
-    i = draw(st.integers(0, na - 1))
-    ops_.append(["MeasureHomodyne", [["tdm", i] if draw(st.booleans()) else draw(v_ang())], [0]])
+    i = arr_index()
+    mk = draw(st.integers(0, 5))
+    if mk == 0:  # the other measurement classes (Borealis programs end in MeasureFock)
+        mname = draw(st.sampled_from(["MeasureFock", "MeasureThreshold", "MeasureHeterodyne"]))
+        ops_.append([mname, [], [0], {"shorthand": "MeasureHD"} if mname == "MeasureHeterodyne" and draw(st.booleans()) else {}])
+    elif mk == 1:
+        ops_.append(draw(st.sampled_from([["MeasureHomodyne", [0], [0], {"shorthand": "MeasureX"}], ["MeasureHomodyne", [PI / 2], [0], {"shorthand": "MeasureP"}]])))
+    else:
+        ops_.append(["MeasureHomodyne", [["tdm", i] if draw(st.booleans()) else draw(v_ang())], [0]])
     if n >= 2 and draw(st.booleans()):
         ops_.append(["MeasureHomodyne", [draw(v_ang())], [n - 1]])
     else:
         ops_.insert(0, ["Sgate", [draw(KIND["sq"]()), 0], [n - 1]])
     w = draw(st.sampled_from(["blackbird", "xir", "xir", "code"]))
+    tpaths = ["string"] if w == "code" else ["string", "file", "fileobj", "pathlib"] + (["string_decl", "file_decl"] if w == "xir" else [])
     vals = st.one_of(st.sampled_from([0.5, 1.25]), gen.fl(0.1, 2.0))
     case = {"n": n, "tdm": {"N": N, "arrays": arrays, "shift": "default" if draw(st.integers(0, 4)) else draw(st.integers(1, 2)),
-                            "N_as_list": draw(st.booleans())},
-            "ops": ops_, "ir": w, "path": "string" if w == "code" else draw(st.sampled_from(["string", "file"])),
+                            "N_as_list": draw(st.booleans()), "arrays_as": ["list", "numpy", "tuple", "list"][draw(st.integers(0, 3))]},
+            "ops": ops_, "ir": w, "path": tpaths[draw(st.integers(0, len(tpaths) - 1))],
             "bind": [{"p%d" % j: draw(vals) for j in range(na)} for _ in range(3)], "meas": [[0.5] * (n + 1)] * 3}
     if draw(st.integers(0, 3)) == 0 and w == "xir":  # blackbird has no place for run options without a target
         case["tdm_shots"] = draw(st.sampled_from([1, 7]))
+    if draw(st.integers(0, 5)) == 0:
+        case["name"] = draw(st.sampled_from(NAMES))
     if any(_is_near(x) for a in arrays for x in a) or any(_is_near(p) for o in ops_ for p in o[1]):
         case["near_pi12"] = True
     return case
